@@ -454,6 +454,47 @@ def judge_poly(inst):
     return viols, p0 != p1
 
 
+def judge_poly2(inst):
+    """two polyploid intersection blocks of different size in one pair of files: the all-blocks columns are sums over
+    the blocks, the largest-block columns are those of the larger block"""
+    ploidy, sizes, p0, p1 = inst["ploidy"], inst["sizes"], inst["p"][0], inst["p"][1]
+    d = _dir()
+    paths = [os.path.join(d, "r0.vcf"), os.path.join(d, "r1.vcf")]
+    names = ["A"] * sizes[0] + ["B"] * sizes[1]
+    build_vcf(paths[0], [[(s_, tuple(a)) for s_, a in zip(names, p0)]], 0, ploidy)
+    build_vcf(paths[1], [[(s_, tuple(a)) for s_, a in zip(names, p1)]], 1, ploidy)
+
+    def V(clause, detail):
+        return {"clause": clause, "signature": "c11:poly2-" + clause, "detail": detail + f" ({p0} vs {p1}, block sizes {sizes})", "instance": inst}
+
+    try:
+        res = run_tool(paths, ploidy=ploidy)
+    except Exception as e:  # noqa
+        return [V("error", f"{type(e).__name__}: {e}")], False
+    row = res["pair"][0]
+    cut = sizes[0]
+    refs = [poly_reference(ploidy, [tuple(a) for a in p0[:cut]], [tuple(a) for a in p1[:cut]]), poly_reference(ploidy, [tuple(a) for a in p0[cut:]], [tuple(a) for a in p1[cut:]])]
+    big = 0 if sizes[0] > sizes[1] else 1
+    viols = []
+    checks = [
+        ("intersection_blocks", 2, 0),
+        ("blockwise_diff_genotypes", refs[0][0] + refs[1][0], 0),
+        ("largestblock_diff_genotypes", refs[big][0], 0),
+        ("all_switches", refs[0][2] + refs[1][2], 1e-9),
+        ("largestblock_switches", refs[big][2], 1e-9),
+        ("all_assessed_pairs", sum(sz - 1 for sz in sizes), 0),
+    ]
+    for col, want, tol in checks:
+        if abs(float(row[col]) - want) > tol:
+            viols.append(V(col, f"{col} = {row[col]}, definition gives {want} (per block: different genotypes {[r[0] for r in refs]}, switches {[r[2] for r in refs]})"))
+    s_, f_ = (float(x) for x in row["all_switchflips"].split("/"))
+    if abs(s_ + f_ - (refs[0][3] + refs[1][3])) > 1e-9 and refs[0][0] == 0 and refs[1][0] == 0:
+        viols.append(V("switchflips", f"switch/flip {row['all_switchflips']} sums to {s_ + f_}, minimum totals per block {[r[3] for r in refs]}"))
+    if refs[big][1] is not None and abs(float(row["largestblock_hamming"]) - refs[big][1]) > 1e-9:
+        viols.append(V("largestblock_hamming", f"largest block Hamming {row['largestblock_hamming']}, definition {refs[big][1]}"))
+    return viols, p0 != p1
+
+
 def poly_reference(ploidy, p0, p1):
     """definitions for one polyploid block: p0[j] / p1[j] = alleles per haplotype at variant j.
     Returns (diff_genotypes, hamming or None, switches, switch+flip total or None)."""
@@ -633,6 +674,17 @@ def space(tier):
             firsts = firsts[:: max(1, len(firsts) // (budget * 4))]
         for p0 in firsts:
             yield {"kind": "polyfn", "ploidy": ploidy, "p0": [list(a) for a in p0], "dosage_variants": ploidy == 3 and n <= 4}
+    # polyploid, two blocks of different size through the files; second file: every haplotype order and every other dosage per column
+    for ploidy, sizes in ((3, (3, 2)), (3, (2, 3))) + (((4, (3, 2)),) if T else ()):
+        gts = [g for g in itertools.product((0, 1), repeat=ploidy) if 0 < sum(g) < ploidy]
+        n = sum(sizes)
+        firsts = [[gts[(i + o) % len(gts)] for i in range(n)] for o in (0, 2)]
+        for p0 in firsts:
+            cols = gts if ploidy == 3 else gts[::2]
+            for p1 in itertools.product(cols, repeat=n):
+                if not T and sum(1 for a, b in zip(p0, p1) if sorted(a) != sorted(b)) > 2:
+                    continue
+                yield {"kind": "poly2", "ploidy": ploidy, "sizes": list(sizes), "p": [[list(a) for a in p0], [list(a) for a in p1]]}
     # polyploid, one block, through the files (binds the command line to compare_block)
     for ploidy, nmax in ((3, 3), (4, 2)) + (((3, 4), (4, 3)) if T else ()):
         arr = []
@@ -658,6 +710,8 @@ def run_one(inst):
         viols, nt = judge_multi(inst)
     elif k == "gen":
         viols, nt = judge_gen(inst)
+    elif k == "poly2":
+        viols, nt = judge_poly2(inst)
     elif k == "polyfn":
         viols, cnt, nt = judge_polyfn(inst)
         return Result(n=cnt, nontrivial=nt, violations=viols[:3], outcome=(k, bool(viols)))
